@@ -1,4 +1,5 @@
 import OnetVerif.Model.C09
+import OnetVerif.Shapes
 /-! Property C09 — peer failures are contained, reported to senders, and recoverable.
 Property theorems (`c09_…`), the lemmas they need, witnesses and non-vacuity examples. -/
 namespace C09
@@ -868,6 +869,44 @@ example : Inv s0 := inv_init 5 [1, 2]
 
 example : 1 ≤ (entry .sendToChildren [1, 3, 2] (fun d => (send s0 d [0] false).2)).1 ∧
     (entry .sendToChildren [1, 3, 2] (fun d => (send s0 d [0] false).2)).2 = [1, 3] := by decide
+
+
+/-! ### the code regions the model stands for
+Regenerated from /repo's source on every run (`harness/cmd/astfacts` → `OnetVerif/Shapes.lean`): the
+calls that matter for synchronisation and data flow, the lock regions and (for decision logic) the
+conditions, in source order.  A re-ordering, a dropped call or a changed condition breaks these
+obligations even when no sampled input or schedule shows a difference; the check then searches for
+a failing input. -/
+theorem c09_shape_router_Router_Send :
+    Shapes.network_router_Router_Send =
+   ["msgTraffic.updateTx", "ServerIdentity.GetID", "e.GetID", "GetID().Equal", "MessageType",
+     "r.Dispatch", "Marshal", "e.GetID", "r.connection", "r.connect", "c.Send", "r.connect",
+     "c.Send"] := rfl
+
+theorem c09_shape_router_Router_connect :
+    Shapes.network_router_Router_connect =
+   ["host.Connect", "c.Send", "c.Close", "verifC10Point", "r.registerConnection", "c.Close",
+     "verifC10Point", "r.launchHandleRoutine"] := rfl
+
+theorem c09_shape_router_Router_removeConnection :
+    Shapes.network_router_Router_removeConnection =
+   ["r.Lock", "defer:r.Unlock", "si.GetID", "si.GetID"] := rfl
+
+theorem c09_shape_router_Router_handleConn :
+    Shapes.network_router_Router_handleConn =
+   ["defer{", "c.Close", "c.Rx", "c.Tx", "traffic.updateRx", "traffic.updateTx", "wg.Done",
+     "r.removeConnection", "verifC10Point", "}", "verifC10Point", "c.Remote", "c.Receive",
+     "verifC10Point", "r.Lock", "r.Unlock", "recv:paused", "r.Lock", "r.Unlock", "r.Closed",
+     "r.triggerConnectionErrorHandlers", "r.triggerConnectionErrorHandlers",
+     "r.triggerConnectionErrorHandlers", "verifC10Point", "msgTraffic.updateRx", "r.Dispatch"] := rfl
+
+theorem c09_shape_router_Router_triggerConnectionErrorHandlers :
+    Shapes.network_router_Router_triggerConnectionErrorHandlers =
+   ["v"] := rfl
+
+theorem c09_shape_Context_SendRaw :
+    Shapes.context_Context_SendRaw =
+   ["server.Send"] := rfl
 
 
 end C09
